@@ -44,6 +44,8 @@ def shapes(tier, seed):
         out.append(('repeat', carrier, 'signed'))
         out.append(('repeat', carrier, 'wrong-sig'))
         out.append(('repeat', carrier, 'bad-date'))
+        for first in ('bad-query', 'bad-date', 'wrong-sig', 'prefix-unsigned'):
+            out.append(('history', carrier, first))
     out.append(('statics',))
     return out
 
@@ -62,6 +64,9 @@ def build(m, ctx, carrier, variant, key):
     signed = ['host', 'x-amz-meta-a', 'x-amz-meta-b'] if variant != 'prefix-unsigned' else ['host']
     ts = TS if variant != 'bad-date' else '2015-13-45T99:99:99Z'
     cred = conc_bytes(AKID + '/' + SCOPE)
+    if variant == 'bad-query':
+        # a malformed escape preceded by ordinary characters, in a value
+        wire_q = wire_q + conc_bytes('&mk=abc%zz')
     if carrier == 'header':
         headers.append(('x-amz-date', conc_bytes(ts)))
         signed = sorted(signed + ['x-amz-date'])
@@ -119,6 +124,14 @@ def run_shape(prog, shape, tier, seed, res):
             rq = build(m, ctx, carrier, variant, key)
             r, _ = run(m, rq, 'us-east-1', 'service', provider_ok(key), instant(T0), reqs)
             return ('orders', rq, summary(outcome(r)))
+        if kind == 'history':
+            # a defective request first, then a correctly signed one on the same thread / in the same process
+            m.hash_order = 'first'
+            bad = build(m, ctx, carrier, variant, key)
+            rb, _ = run(m, bad, 'us-east-1', 'service', provider_ok(key), instant(T0), reqs)
+            good = build(m, ctx, carrier, 'signed', key)
+            rg, _ = run(m, good, 'us-east-1', 'service', provider_ok(key), instant(T0), reqs)
+            return ('history', good, summary(outcome(rb)), summary(outcome(rg)))
         m.hash_order = 'two'
         rq = build(m, ctx, carrier, variant, key)
         r1, _ = run(m, rq, 'us-east-1', 'service', provider_ok(key), instant(T0), reqs)
@@ -145,6 +158,14 @@ def run_shape(prog, shape, tier, seed, res):
             _, rq, (k, ret) = v
             res.witnesses.add('orders:' + k)
             collected.append((list(ctx.pc), k, ret, rq))
+            return
+        if v[0] == 'history':
+            _, rq, (kb, _rb), (kg, retg) = v
+            res.witnesses.add('history:' + kb + '->' + kg)
+            if kg != 'ok':
+                sat, model = ctx.satisfiable()
+                res.findings.append(Finding('a correctly signed request is refused (%s) when it follows a %s request in the same process' % (kg, shape[2]),
+                                            {'shape': list(shape), 'request': rq.to_json(model), 'first': shape[2]}, None, None, repr(shape)))
             return
         _, rq, (k1, ret1), (k2, ret2) = v
         res.witnesses.add('repeat:' + k1)
@@ -225,6 +246,24 @@ def replay_finding(rp, f):
     inp = f.inp
     if 'request' not in inp:
         return False, None
+    if inp.get('first'):
+        reqs = {'kind': 'slice', 'always': [], 'if_in': [], 'prefixes': ['x-amz-meta']}
+        good = inp['request']
+        # re-sign the good request concretely (the model's signature comes from the oracle)
+        sg = c02.sign_concrete({'carrier': inp['shape'][1], 'request': c02.strip_signature(good, inp['shape'][1]),
+                                'signed': sorted(['host', 'x-amz-meta-a', 'x-amz-meta-b'] + (['x-amz-date'] if inp['shape'][1] == 'header' else [])), 's3': False})[0]
+        alone = native_repeat(rp, sg, reqs)
+        bad = dict(sg)
+        if inp['first'] == 'bad-query':
+            bad['uri'] = sg['uri'] + '&mk=abc%zz'
+        elif inp['first'] == 'bad-date':
+            bad['headers'] = [[n, (b'junk'.hex() if n == 'x-amz-date' else v)] for n, v in sg['headers']]
+            bad['uri'] = sg['uri'].replace('X-Amz-Date=20150830T123600Z', 'X-Amz-Date=junk')
+        else:
+            bad['uri'] = sg['uri'][:-1] + ('0' if sg['uri'][-1] != '0' else '1') if inp['shape'][1] == 'query' else sg['uri']
+        k_bad = native_repeat(rp, bad, reqs)
+        after = native_repeat(rp, sg, reqs)
+        return alone == 'ok' and after != 'ok', {'good_alone': alone, 'bad_first': k_bad, 'good_after_bad': after}
     # the native process uses a fresh random hash seed per map: repeat many times and look for differing kinds
     kinds = set()
     for _ in range(64):
@@ -297,12 +336,13 @@ def bounds(tier):
             'HashMap and the header HashMap all permutations when a map has <= 3 entries, otherwise the covering family identity / reverse / each '
             'entry first / each entry last (chosen per path, both maps independently) for a correctly signed request, '
             'a request with two unsigned prefix-matching headers and a wrongly signed one; two consecutive validations in one path for signed, '
-            'wrongly signed and malformed-date requests; values of all lazy statics after a run')
+            'wrongly signed and malformed-date requests; histories: a request with a malformed query escape / malformed date / wrong signature / '
+            'unsigned prefixed header followed by a correctly signed request; values of all lazy statics after a run')
 
 
 OUTSIDE = ('thread schedules (NOT decided by this check); error *messages* (the property fixes outcome, kind and returned request: the message of the '
            'prefix rule names whichever unsigned header the map yields first); process-level state other than hash seeds')
-NEED_WITNESSES = {'orders:ok', 'orders:SignatureDoesNotMatch', 'repeat:ok', 'repeat:IncompleteSignature'}
+NEED_WITNESSES = {'orders:ok', 'orders:SignatureDoesNotMatch', 'repeat:ok', 'repeat:IncompleteSignature', 'history:MalformedQueryString->ok'}
 ASSUMPTIONS = ['std HashMap iteration order is an arbitrary permutation of its entries (this is the hash-seed quantifier)',
                'lazy_static initialisation is executed from its MIR once per path; `Once` itself is trusted']
 
